@@ -1095,6 +1095,48 @@ theorem compact_verBound {s s' : Lsm} {cd : CompactDef} {d n now : Nat} (h : Lsm
 
 end LL
 
+/-- the textbook form of C14 on one level: for consecutive tables, the last user key of the first
+    is strictly below the first user key of the second -/
+def KeyDisjointC : List Tbl → Prop
+  | a :: b :: rest =>
+    (∀ x y, a.biggest = some x → b.smallest = some y → cmpBytes x.key y.key = .lt) ∧ KeyDisjointC (b :: rest)
+  | _ => True
+
+namespace LL
+
+theorem keyDisjoint_iff_consecutive {l : List Tbl} (hok : ∀ t ∈ l, TblOk t) :
+    KeyDisjoint l ↔ KeyDisjointC l := by
+  induction l with
+  | nil => simp [KeyDisjoint, KeyDisjointC]
+  | cons a l ih =>
+    cases l with
+    | nil => simp [KeyDisjoint, KeyDisjointC]
+    | cons b rest =>
+      have ih' := ih (fun t ht => hok t (List.mem_cons_of_mem _ ht))
+      constructor
+      · intro h
+        obtain ⟨h1, h2⟩ := List.pairwise_cons.mp h
+        refine ⟨?_, ih'.mp h2⟩
+        intro x y hx hy
+        exact h1 b (by simp) x (biggest_mem hx) y (smallest_mem hy)
+      · rintro ⟨h1, h2⟩
+        have hkd : KeyDisjoint (b :: rest) := ih'.mpr h2
+        obtain ⟨hb1, _⟩ := List.pairwise_cons.mp hkd
+        obtain ⟨x, hx⟩ := biggest_some (hok a (by simp)).1
+        obtain ⟨y, hy⟩ := smallest_some (hok b (by simp)).1
+        have hxy : klt x.key y.key := h1 x y hx hy
+        have hsab : Sep keyLt a b := by
+          intro u hu v hv
+          exact klt_of_klt_of_kle (klt_of_kle_of_klt (tbl_keys_le_biggest (hok a (by simp)).2 hx u hu) hxy)
+            (tbl_keys_ge_smallest (hok b (by simp)).2 hy v hv)
+        refine List.pairwise_cons.mpr ⟨?_, hkd⟩
+        intro t ht
+        rcases List.mem_cons.mp ht with rfl | ht
+        · exact hsab
+        · exact Sep.trans sepRel_keyLt (hok b (by simp)).1 hsab (hb1 t ht)
+
+end LL
+
 /-! ## evaluating compactions on closed terms -/
 
 deriving instance DecidableEq for Lsm
